@@ -336,6 +336,11 @@ func runC16(c C16Case, ev *Evid) (fs []Finding) {
 						add("effect-missing", "%s: success, but archive %d slot t=%d of the destination does not hold the source's value %s", desc, a, S[a].S.From+int64(k)*S[a].S.Step, fstr(sv))
 						return
 					}
+					if c.CopyNaN && sv != sv && !A[a].Nil && k < len(A[a].S.Values) && A[a].S.Values[k] == A[a].S.Values[k] {
+						// -copy-nan: a hole of the source is part of what is copied (round 10, C16s)
+						add("effect-missing", "%s: success with -copy-nan, but archive %d slot t=%d of the destination still holds %s where the source has no value", desc, a, S[a].S.From+int64(k)*S[a].S.Step, fstr(A[a].S.Values[k]))
+						return
+					}
 				}
 			}
 		case "sum-copy":
